@@ -337,10 +337,11 @@ let () =
          (match !lstate with Some s -> lcomm := Some s.Comm.cm | None -> ());
          (* if the real code diverged on what is left of the input we cannot know it; keep L's view *)
          let w = match !world with Some w -> w | None -> failwith "no world" in
-         rp "read %d kind=%s out=%s err=%s t0=%d t1=%d deadline=%d calls=%d polls_after_deadline=%d consumed_out=%d consumed_err=%d pin_buf=%d pout_buf=%d perr_buf=%d pout_wr=%b perr_wr=%b\n"
+         rp "read %d kind=%s out=%s err=%s t0=%d t1=%d deadline=%d calls=%d polls_after_deadline=%d consumed_out=%d consumed_err=%d pin_buf=%d pout_buf=%d perr_buf=%d pout_wr=%b perr_wr=%b pin_wr=%b written=%d\n"
            !readidx kind o e !read_t0 t1 !read_deadline !read_calls !polls_after_deadline !consumed_out !consumed_err
            (Stdlib.List.length w.CommK.pin.CommK.buf) (Stdlib.List.length w.CommK.pout.CommK.buf)
-           (Stdlib.List.length w.CommK.perr.CommK.buf) w.CommK.pout.CommK.wr w.CommK.perr.CommK.wr;
+           (Stdlib.List.length w.CommK.perr.CommK.buf) w.CommK.pout.CommK.wr w.CommK.perr.CommK.wr w.CommK.pin.CommK.wr
+           (Stdlib.List.length w.CommK.child_got + Stdlib.List.length w.CommK.pin.CommK.buf);
          lstate := None; lexpect := None;
          reply "ok"
        | ["retstr"; kind] ->
@@ -354,10 +355,11 @@ let () =
          if mkind <> kind then diverge (Printf.sprintf "E1:Comm read#%d return: real=%s model=%s" !readidx kind mkind);
          (match !lstate with Some s -> lcomm := Some s.Comm.cm | None -> ());
          let w = match !world with Some w -> w | None -> failwith "no world" in
-         rp "read %d kind=%s out=%s err=%s t0=%d t1=%d deadline=%d calls=%d polls_after_deadline=%d consumed_out=%d consumed_err=%d pin_buf=%d pout_buf=%d perr_buf=%d pout_wr=%b perr_wr=%b\n"
+         rp "read %d kind=%s out=%s err=%s t0=%d t1=%d deadline=%d calls=%d polls_after_deadline=%d consumed_out=%d consumed_err=%d pin_buf=%d pout_buf=%d perr_buf=%d pout_wr=%b perr_wr=%b pin_wr=%b written=%d\n"
            !readidx kind mo me !read_t0 t1 !read_deadline !read_calls !polls_after_deadline !consumed_out !consumed_err
            (Stdlib.List.length w.CommK.pin.CommK.buf) (Stdlib.List.length w.CommK.pout.CommK.buf)
-           (Stdlib.List.length w.CommK.perr.CommK.buf) w.CommK.pout.CommK.wr w.CommK.perr.CommK.wr;
+           (Stdlib.List.length w.CommK.perr.CommK.buf) w.CommK.pout.CommK.wr w.CommK.perr.CommK.wr w.CommK.pin.CommK.wr
+           (Stdlib.List.length w.CommK.child_got + Stdlib.List.length w.CommK.pin.CommK.buf);
          lstate := None; lexpect := None;
          reply (mo ^ " " ^ me)
        (* ---- Popen run-time ---- *)
